@@ -38,10 +38,11 @@ PROBLEMS = {
     "sinus-lim": dict(model="sinus", truth=[1.7, 0.85, 3.0], sources=[("y", "vec")], limits={"om": (0.5, 1.2)}),
     "quad-rho": dict(model="quad", truth=[0.05, 0.7, 1.2], sources=[("y", "rho")]),
     "peak-fixed": dict(model="peak", truth=[3.3, 4.3, 1.3, 1.0], sources=[("y", "vec"), ("y", "cov")], fixed={"c": 1.0}),
+    "peak-fix2": dict(model="peak", truth=[3.3, 4.3, 1.3, 1.0], sources=[("y", "vec")], fixed={"mu": 4.32, "c": 1.0}),  # two non-adjacent fixed parameters
     "pow-xy": dict(model="powerlaw", truth=[1.1, 0.9], sources=[("y", "vec"), ("x", "vec")]),
     "logistic-lim": dict(model="logistic", truth=[8.0, 0.7, 4.2], sources=[("y", "vec")], limits={"L": (5.0, 12.0)}),
 }
-QUICK = ["exp-y", "exp-rho-cov", "exp-xy-relm", "expc-fixed", "expc-con", "sinus-lim", "quad-rho"]
+QUICK = ["exp-y", "exp-rho-cov", "exp-xy-relm", "expc-fixed", "expc-con", "sinus-lim", "quad-rho", "peak-fix2"]
 N = 10
 
 
@@ -197,8 +198,8 @@ def jobs(tier, seed):
 
 def bound(tier, seed):
     if tier == "quick":
-        return "7 problems x 2 backends x {7 point permutations, all parameter orders, unit factors 1e-5 / 1e-3 / 7 / 1e3 / 1e5, 2 combined transformations}, each applied to the untransformed problem; valuation %d" % (seed % 3)
-    return "10 problems x 2 backends x full product of 14 point permutations x all parameter orders (<= 6) x unit factors {1, 1e-5, 1e-3, 7, 1e3, 1e5}; valuations 0,1,2"
+        return "8 problems x 2 backends x {7 point permutations, all parameter orders, unit factors 1e-5 / 1e-3 / 7 / 1e3 / 1e5, 2 combined transformations}, each applied to the untransformed problem; valuation %d" % (seed % 3)
+    return "11 problems x 2 backends x full product of 14 point permutations x all parameter orders (<= 6) x unit factors {1, 1e-5, 1e-3, 7, 1e3, 1e5}; valuations 0,1,2"
 
 
 def run_case(name, backend, v, perm, order, unit):
